@@ -736,7 +736,7 @@ func (p *provRun) directed(pc *ProvCase) {
 		case pc.Failure == "never-ready":
 			w.cfg.Calm = false
 			w.cfg.ForceFault["never-ready"] = "all"
-		case pc.Failure == "attach":
+		case pc.Failure == "attach", pc.Failure == "attach-then-over-max":
 			w.cfg.ForceFault[key(OpAttach, pc.K)] = FErrBefore
 		case pc.Failure == "attach-after":
 			w.cfg.ForceFault[key(OpAttach, pc.K)] = FErrAfter
@@ -753,6 +753,20 @@ func (p *provRun) directed(pc *ProvCase) {
 			w.cfg.ForceFault[key(OpTerminateEC2, pc.K2)] = FErrBefore
 		}
 		p.opIncrease(int64(pc.Size))
+		if pc.Failure == "attach-then-over-max" && len(p.res.Violations) == 0 && !p.exited {
+			// the next refresh answer lacks the group (the provider keeps its cache), then a scale-up that
+			// exceeds the ASG maximum given the batches that WERE attached: must be rejected without a write
+			p.opIdx++
+			p.begin("Refresh(answer without the group)")
+			w.cfg.ForceFault[fmt.Sprintf("/%s#%d", OpDescribeASG, w.occ["/"+OpDescribeASG]+1)] = FFewer
+			w.cfg.Faults[FFewer] = true
+			w.ctx = ""
+			_, _, _ = p.guard(func() error { return p.cloud.Refresh() })
+			w.ctx = p.g.Name
+			k := p.known()
+			p.opIdx++
+			p.opIncrease(k.Max - k.Desired + 1)
+		}
 		for r := 1; r < pc.Repeat && len(p.res.Violations) == 0 && !p.exited; r++ {
 			// the same failure again, after a refresh, as consecutive scans would meet it
 			p.opIdx++
